@@ -70,10 +70,13 @@ CLAIMED["C08"] = dict(
     text=("Gallina models of daglish's traversals over a heap (un-memoized pre-order with paths, memoized "
           "iteration with and without internables, all-paths query, identity rebuild as an instance of the "
           "memoized traversal, cycle detection on arbitrary heaps); theorems on soundness/completeness of paths "
-          "and exactly-once visiting; evaluated in Coq against daglish.iterate (3 modes), collect_paths_by_id and "
+          "and exactly-once visiting, and - on arbitrary heaps with cycles and dangling pointers - that the memoized "
+          "traversal never exhausts its fuel and reports a cycle only where an object reaches itself (that every "
+          "reachable cycle is reported is validated by correspondence only); evaluated in Coq against daglish.iterate (3 modes), collect_paths_by_id and "
           "MemoizedTraversal.run(map_children); the Python oracle additionally checks State.get_all_paths and the "
           "four daglish_legacy entry points against an independent path enumeration, follow_path soundness, "
-          "cyclic structures and a user-registered node type with temporaries."),
+          "cyclic structures and user-registered node types (with temporaries; registered after their first "
+          "traversal through the default, fallback, == and serialization registries)."),
     note=COMMON_NOTE + " Known finding: daglish_legacy.memoized_traverse raises KeyError on node types whose "
          "flatten creates temporaries.",
     technique="Coq proof (path soundness/completeness, memoized once) + vm_compute correspondence on 10 entry points",
@@ -238,7 +241,9 @@ CLAIMED["C19"] = dict(
           "global sequence counter, shared caches filled with a pure function of the key): for EVERY schedule of "
           "the modelled atomic actions each thread observes what it observes alone (up to order-preserving "
           "renaming of sequence ids and cache hit/miss), ids are strictly increasing globally hence unique and "
-          "increasing per thread, and a shared cache only ever returns f(key). Real threads are run under a "
+          "increasing per thread, and a shared cache only ever returns f(key); two interleavings of the same "
+          "per-thread programs are indistinguishable for every thread, and each thread's guard / switch flags and "
+          "number of sequence ids end as in its solo run. Real threads are run under a "
           "deterministic scheduler that switches at source-line granularity inside Fiddle; per-thread results are "
           "compared with sequential runs and the logged guard / switch / counter events of every schedule are "
           "replayed on the Coq model."),
